@@ -72,9 +72,11 @@ class TGen:
                 if t in ("ts", "dur") and r.random() < 0.3:
                     v = self.value(t)
                     if v[1] % 10**6 == 0 or (t == "dur" and abs(v[1]) < 10**15):
-                        txt = MV.lit(v)
-                        if txt is not None:
+                        try:
+                            MV.lit(v)
                             return Node("lit", t, v)
+                        except ValueError:
+                            pass
                 return self.fresh_var(t)
             if t[0] == "list":
                 n = r.choice([0, 1, 2, 3])
